@@ -1,5 +1,369 @@
 import RzmqModel.Model.Routing
-/-! Helper lemmas. -/
+/-! Helper lemmas for C12 (subscription trie). -/
 namespace Rzmq
+
+/-! ### children association list -/
+
+theorem childLookup_upsert (ch : List (UInt8 × Trie)) (b b' : UInt8) (f : Trie → Trie) :
+    childLookup (childUpsert ch b f) b' =
+      if b' = b then some (f ((childLookup ch b).getD Trie.empty)) else childLookup ch b' := by
+  induction ch with
+  | nil =>
+    by_cases hb : b' = b
+    · simp [childUpsert, childLookup, hb]
+    · have hb2 : ¬ b = b' := fun h => hb h.symm
+      simp [childUpsert, childLookup, hb, hb2]
+  | cons hd tl ih =>
+    obtain ⟨k, t⟩ := hd
+    by_cases hk : k = b
+    · subst hk
+      by_cases hb : b' = k
+      · subst hb
+        simp [childUpsert, childLookup]
+      · have hb2 : ¬ k = b' := fun h => hb h.symm
+        simp [childUpsert, childLookup, hb, hb2]
+    · by_cases hb : b' = b
+      · subst hb
+        simp [childUpsert, childLookup, hk, ih]
+      · by_cases hkb : k = b'
+        · simp [childUpsert, childLookup, hb, hkb]
+        · simp [childUpsert, childLookup, hk, hb, hkb, ih]
+
+theorem childLookup_replace (ch : List (UInt8 × Trie)) (b b' : UInt8) (t' : Trie) :
+    childLookup (childReplace ch b t') b' =
+      if b' = b then (childLookup ch b).map (fun _ => t') else childLookup ch b' := by
+  induction ch with
+  | nil => simp [childReplace, childLookup]
+  | cons hd tl ih =>
+    obtain ⟨k, t⟩ := hd
+    by_cases hk : k = b
+    · subst hk
+      by_cases hb : b' = k
+      · subst hb
+        simp [childReplace, childLookup]
+      · have hb2 : ¬ k = b' := fun h => hb h.symm
+        simp [childReplace, childLookup, hb, hb2]
+    · by_cases hb : b' = b
+      · subst hb
+        simp [childReplace, childLookup, hk, ih]
+      · by_cases hkb : k = b'
+        · simp [childReplace, childLookup, hb, hkb]
+        · simp [childReplace, childLookup, hk, hb, hkb, ih]
+
+theorem countAt_empty (q : List UInt8) : Trie.empty.countAt q = 0 := by
+  cases q <;> simp [Trie.empty, Trie.countAt, childLookup]
+
+/-! ### counts -/
+
+theorem countAt_subscribe (p q : List UInt8) (t : Trie) :
+    (t.subscribe p).countAt q = t.countAt q + (if p = q then 1 else 0) := by
+  induction p generalizing q t with
+  | nil =>
+    obtain ⟨c, ch⟩ := t
+    cases q with
+    | nil => simp [Trie.subscribe, Trie.countAt]
+    | cons b' rest' => simp [Trie.subscribe, Trie.countAt]
+  | cons b rest ih =>
+    obtain ⟨c, ch⟩ := t
+    cases q with
+    | nil => simp [Trie.subscribe, Trie.countAt]
+    | cons b' rest' =>
+      simp only [Trie.subscribe, Trie.countAt, childLookup_upsert]
+      by_cases hb : b' = b
+      · subst hb
+        simp only [if_true, ih]
+        cases hl : childLookup ch b' with
+        | none => simp [countAt_empty]
+        | some t' => simp
+      · have hb2 : ¬ b = b' := fun h => hb h.symm
+        simp [hb, hb2]
+
+theorem countAt_unsubscribe (p q : List UInt8) (t : Trie) :
+    (t.unsubscribe p).1.countAt q = t.countAt q - (if p = q then 1 else 0) := by
+  induction p generalizing q t with
+  | nil =>
+    obtain ⟨c, ch⟩ := t
+    cases q with
+    | nil =>
+      simp only [Trie.unsubscribe]
+      split <;> simp [Trie.countAt] <;> omega
+    | cons b' rest' =>
+      simp only [Trie.unsubscribe]
+      split <;> simp [Trie.countAt]
+  | cons b rest ih =>
+    obtain ⟨c, ch⟩ := t
+    cases q with
+    | nil =>
+      simp only [Trie.unsubscribe]
+      split <;> simp [Trie.countAt]
+    | cons b' rest' =>
+      simp only [Trie.unsubscribe]
+      split
+      next hl =>
+        by_cases hb : b' = b
+        · subst hb
+          simp [Trie.countAt, hl]
+        · have hb2 : ¬ b = b' := fun h => hb h.symm
+          simp [hb2]
+      next t' hl =>
+        simp only [Trie.countAt, childLookup_replace]
+        by_cases hb : b' = b
+        · subst hb
+          simp [hl, ih]
+        · have hb2 : ¬ b = b' := fun h => hb h.symm
+          simp [hb, hb2]
+
+theorem unsubscribe_snd_iff (p : List UInt8) (t : Trie) :
+    (t.unsubscribe p).2 = true ↔ t.countAt p = 1 := by
+  induction p generalizing t with
+  | nil =>
+    obtain ⟨c, ch⟩ := t
+    simp only [Trie.unsubscribe, Trie.countAt]
+    split
+    · simp
+    · have : c = 0 := by omega
+      simp [this]
+  | cons b rest ih =>
+    obtain ⟨c, ch⟩ := t
+    cases hl : childLookup ch b with
+    | none => simp [Trie.unsubscribe, Trie.countAt, hl]
+    | some t' => simp [Trie.unsubscribe, Trie.countAt, hl, ih]
+
+theorem unsubscribe_result (p : List UInt8) (t : Trie) :
+    (t.unsubscribe p).2 = decide (t.countAt p = 1) := by
+  rw [Bool.eq_iff_iff, decide_eq_true_iff]
+  exact unsubscribe_snd_iff p t
+
+theorem matches_iff (msg : List UInt8) (t : Trie) :
+    t.matches msg = true ↔ ∃ p, p <+: msg ∧ 0 < t.countAt p := by
+  induction msg generalizing t with
+  | nil =>
+    obtain ⟨c, ch⟩ := t
+    simp [Trie.matches, Trie.countAt]
+  | cons b rest ih =>
+    obtain ⟨c, ch⟩ := t
+    simp only [Trie.matches]
+    constructor
+    · intro h
+      split at h
+      next hc => exact ⟨[], List.nil_prefix, by simpa [Trie.countAt] using hc⟩
+      next hc =>
+        split at h
+        · cases h
+        next t' hl =>
+          obtain ⟨p, hp, hcnt⟩ := (ih t').mp h
+          refine ⟨b :: p, ?_, ?_⟩
+          · rw [List.prefix_cons_iff]
+            exact Or.inr ⟨p, rfl, hp⟩
+          · simpa [Trie.countAt, hl] using hcnt
+    · rintro ⟨p, hp, hcnt⟩
+      rw [List.prefix_cons_iff] at hp
+      rcases hp with rfl | ⟨p', rfl, hp'⟩
+      · have : c > 0 := by simpa [Trie.countAt] using hcnt
+        simp [this]
+      · split
+        · rfl
+        · simp only [Trie.countAt] at hcnt
+          split at hcnt
+          · omega
+          next t' hl =>
+            exact (ih t').mpr ⟨p', hp', hcnt⟩
+
+theorem apply_countAt (t : Trie) (op : SubOp) (p : List UInt8) :
+    (t.apply op).countAt p = absCountFrom p (t.countAt p) [op] := by
+  cases op with
+  | sub q =>
+    simp only [Trie.apply, absCountFrom, countAt_subscribe]
+    split <;> rfl
+  | unsub q =>
+    simp only [Trie.apply, absCountFrom, countAt_unsubscribe]
+    split <;> rfl
+
+theorem foldl_apply_countAt (h : List SubOp) (t : Trie) (p : List UInt8) :
+    (h.foldl Trie.apply t).countAt p = absCountFrom p (t.countAt p) h := by
+  induction h generalizing t with
+  | nil => rfl
+  | cons op rest ih =>
+    rw [List.foldl_cons, ih, apply_countAt]
+    cases op <;> simp [absCountFrom]
+
+/-! ### well-formedness: child keys pairwise distinct, recursively -/
+
+mutual
+def Trie.wf : Trie → Bool
+  | .node _ ch => Trie.wfCh ch
+def Trie.wfCh : List (UInt8 × Trie) → Bool
+  | [] => true
+  | (b, t) :: rest => (childLookup rest b).isNone && t.wf && Trie.wfCh rest
+end
+
+theorem wf_empty : Trie.empty.wf = true := by
+  simp [Trie.empty, Trie.wf, Trie.wfCh]
+
+theorem wfCh_lookup (ch : List (UInt8 × Trie)) (b : UInt8) (t : Trie) (h : Trie.wfCh ch = true)
+    (hl : childLookup ch b = some t) : t.wf = true := by
+  induction ch with
+  | nil => simp [childLookup] at hl
+  | cons hd tl ih =>
+    obtain ⟨k, t'⟩ := hd
+    simp only [Trie.wfCh, Bool.and_eq_true] at h
+    simp only [childLookup] at hl
+    split at hl
+    · cases hl; exact h.1.2
+    · exact ih h.2 hl
+
+theorem wfCh_upsert (ch : List (UInt8 × Trie)) (b : UInt8) (f : Trie → Trie)
+    (hf : ∀ t, t.wf = true → (f t).wf = true) (h : Trie.wfCh ch = true) :
+    Trie.wfCh (childUpsert ch b f) = true := by
+  induction ch with
+  | nil => simp [childUpsert, Trie.wfCh, childLookup, hf _ wf_empty]
+  | cons hd tl ih =>
+    obtain ⟨k, t⟩ := hd
+    simp only [Trie.wfCh, Bool.and_eq_true] at h
+    obtain ⟨⟨h1, h2⟩, h3⟩ := h
+    by_cases hk : k = b
+    · subst hk
+      simp [childUpsert, Trie.wfCh, h1, hf _ h2, h3]
+    · simp [childUpsert, hk, Trie.wfCh, childLookup_upsert, h1, h2, ih h3]
+
+theorem wfCh_replace (ch : List (UInt8 × Trie)) (b : UInt8) (t' : Trie)
+    (ht : t'.wf = true) (h : Trie.wfCh ch = true) :
+    Trie.wfCh (childReplace ch b t') = true := by
+  induction ch with
+  | nil => simp [childReplace, Trie.wfCh]
+  | cons hd tl ih =>
+    obtain ⟨k, t⟩ := hd
+    simp only [Trie.wfCh, Bool.and_eq_true] at h
+    obtain ⟨⟨h1, h2⟩, h3⟩ := h
+    by_cases hk : k = b
+    · subst hk
+      simp [childReplace, Trie.wfCh, h1, ht, h3]
+    · simp [childReplace, hk, Trie.wfCh, childLookup_replace, h1, h2, ih h3]
+
+theorem wf_subscribe (p : List UInt8) (t : Trie) (h : t.wf = true) : (t.subscribe p).wf = true := by
+  induction p generalizing t with
+  | nil =>
+    obtain ⟨c, ch⟩ := t
+    simpa [Trie.subscribe, Trie.wf] using h
+  | cons b rest ih =>
+    obtain ⟨c, ch⟩ := t
+    simp only [Trie.subscribe, Trie.wf] at h ⊢
+    exact wfCh_upsert ch b _ ih h
+
+theorem wf_unsubscribe (p : List UInt8) (t : Trie) (h : t.wf = true) : (t.unsubscribe p).1.wf = true := by
+  induction p generalizing t with
+  | nil =>
+    obtain ⟨c, ch⟩ := t
+    simp only [Trie.unsubscribe]
+    split <;> simpa [Trie.wf] using h
+  | cons b rest ih =>
+    obtain ⟨c, ch⟩ := t
+    cases hl : childLookup ch b with
+    | none => simpa [Trie.unsubscribe, hl] using h
+    | some t' =>
+      simp only [Trie.unsubscribe, hl, Trie.wf] at h ⊢
+      exact wfCh_replace ch b _ (ih t' (wfCh_lookup ch b t' h hl)) h
+
+theorem wf_apply (t : Trie) (op : SubOp) (h : t.wf = true) : (t.apply op).wf = true := by
+  cases op with
+  | sub q => exact wf_subscribe q t h
+  | unsub q => exact wf_unsubscribe q t h
+
+theorem wf_foldl (h : List SubOp) (t : Trie) (ht : t.wf = true) : (h.foldl Trie.apply t).wf = true := by
+  induction h generalizing t with
+  | nil => exact ht
+  | cons op rest ih => exact ih _ (wf_apply t op ht)
+
+/-! ### topics -/
+
+theorem count_map_cons (b b' : UInt8) (p : List UInt8) (l : List (List UInt8)) :
+    (l.map (b' :: ·)).count (b :: p) = if b = b' then l.count p else 0 := by
+  induction l with
+  | nil => simp
+  | cons x xs ih =>
+    simp only [List.map_cons, List.count_cons, ih]
+    by_cases hb : b = b'
+    · subst hb
+      simp
+    · have hb2 : ¬ b' = b := fun h => hb h.symm
+      simp [hb, hb2]
+
+theorem count_nil_map_cons (b' : UInt8) (l : List (List UInt8)) :
+    (l.map (b' :: ·)).count [] = 0 := by
+  induction l with
+  | nil => simp
+  | cons x xs ih => simp [ih]
+
+theorem count_nil_topicsCh (ch : List (UInt8 × Trie)) : (Trie.topicsCh ch).count [] = 0 := by
+  induction ch with
+  | nil => simp [Trie.topicsCh]
+  | cons hd tl ih =>
+    obtain ⟨k, t⟩ := hd
+    simp [Trie.topicsCh, List.count_append, count_nil_map_cons, ih]
+
+theorem count_cons_topicsCh_none (ch : List (UInt8 × Trie)) (b : UInt8) (rest : List UInt8)
+    (hl : childLookup ch b = none) : (Trie.topicsCh ch).count (b :: rest) = 0 := by
+  induction ch with
+  | nil => simp [Trie.topicsCh]
+  | cons hd tl ih =>
+    obtain ⟨k, t⟩ := hd
+    simp only [childLookup] at hl
+    split at hl
+    · cases hl
+    next hk =>
+      have hk' : ¬ b = k := fun h => hk (by simp [h])
+      simp [Trie.topicsCh, List.count_append, count_map_cons, hk', ih hl]
+
+theorem count_cons_topicsCh_some (ch : List (UInt8 × Trie)) (b : UInt8) (rest : List UInt8) (t : Trie)
+    (h : Trie.wfCh ch = true) (hl : childLookup ch b = some t) :
+    (Trie.topicsCh ch).count (b :: rest) = t.topics.count rest := by
+  induction ch with
+  | nil => simp [childLookup] at hl
+  | cons hd tl ih =>
+    obtain ⟨k, t'⟩ := hd
+    simp only [Trie.wfCh, Bool.and_eq_true] at h
+    obtain ⟨⟨h1, h2⟩, h3⟩ := h
+    simp only [childLookup] at hl
+    split at hl
+    next hk =>
+      have hk' : k = b := by simpa using hk
+      subst hk'
+      cases hl
+      have hnone : childLookup tl k = none := by simpa using h1
+      simp [Trie.topicsCh, List.count_append, count_map_cons, count_cons_topicsCh_none tl k rest hnone]
+    next hk =>
+      have hk' : ¬ b = k := fun h => hk (by simp [h])
+      simp [Trie.topicsCh, List.count_append, count_map_cons, hk', ih h3 hl]
+
+theorem count_topics (p : List UInt8) (t : Trie) (h : t.wf = true) :
+    t.topics.count p = if 0 < t.countAt p then 1 else 0 := by
+  induction p generalizing t with
+  | nil =>
+    obtain ⟨c, ch⟩ := t
+    simp only [Trie.topics, Trie.countAt, List.count_append, count_nil_topicsCh]
+    split <;> simp_all
+  | cons b rest ih =>
+    obtain ⟨c, ch⟩ := t
+    simp only [Trie.wf] at h
+    have h0 : (if c > 0 then [[]] else ([] : List (List UInt8))).count (b :: rest) = 0 := by
+      split <;> simp
+    cases hl : childLookup ch b with
+    | none =>
+      simp [Trie.topics, Trie.countAt, List.count_append, h0, hl, count_cons_topicsCh_none ch b rest hl]
+    | some t' =>
+      simp only [Trie.topics, Trie.countAt, List.count_append, h0, hl,
+        count_cons_topicsCh_some ch b rest t' h hl, Nat.zero_add]
+      exact ih t' (wfCh_lookup ch b t' h hl)
+
+theorem mem_topics_iff (p : List UInt8) (t : Trie) (h : t.wf = true) :
+    p ∈ t.topics ↔ 0 < t.countAt p := by
+  rw [← List.count_pos_iff, count_topics p t h]
+  split <;> simp_all
+
+theorem topics_nodup_of_wf (t : Trie) (h : t.wf = true) : t.topics.Nodup := by
+  rw [List.nodup_iff_count]
+  intro p
+  rw [count_topics p t h]
+  split <;> omega
 
 end Rzmq
